@@ -98,7 +98,7 @@ CHECKS = {
             "DESIGN.md §6 C12"),
     "C16": ("exploration",
             "black-box property-based testing (proptest request sequences) of the real server binary against an in-harness MongoDB wire-protocol stub, answers compared with the truth-table oracle",
-            "Generated codes (well-formed, malformed, undeclared statement) x parsing x request orders over all six strategies are sent over HTTP to the server built from the current tree; returned models and graphs are checked against the definitional answers and by evaluating the graphs under all consistent assignments; error reporting, 409/400 status and running_tasks are checked.",
+            "Generated codes (well-formed, malformed, undeclared statement) x parsing x request orders over all six strategies are sent over HTTP to the server built from the current tree; returned models and graphs are checked against the definitional answers and by evaluating the graphs under all consistent assignments; error reporting, 409/400 status and running_tasks are checked. A further part deletes a problem while one of its solve tasks is still running and adds another code under the same name (nothing of the deleted problem may reach the new one).",
             "'Eventually' is bounded polling (INCONCLUSIVE, exit 2, when a task is still listed as running after the bound). Trusts the Mongo stub's query semantics and oracle.rs.",
             "DESIGN.md §6 C16"),
     "C17": ("exploration",
